@@ -1,6 +1,8 @@
 (* C08 — hard money market: LTV gate, liquidation only of unsafe positions, monotone interest.
-   Property theorems only; proofs are in Proofs/Hard.v.  [_refuted] theorems carry concrete
-   witnesses: minimised histories that the driver's monitors found on the real keepers. *)
+   Property theorems only; proofs are in Proofs/Hard.v.  The model follows the code after the two
+   fix commits (ValidateBorrow also applies the liquidation valuation to the resulting position;
+   CalculateSupplyInterestFactor returns one for a non-positive supply).  The two minimised
+   histories on which the earlier code violated the property are kept as regression examples. *)
 From Kava Require Import Base.Prelude Base.Dec Model.Hard Proofs.Hard.
 Local Open Scope Z_scope.
 
@@ -15,18 +17,23 @@ Theorem C08_withdraw_gate :
 Proof. exact withdraw_gate. Qed.
 Print Assumptions C08_withdraw_gate.
 
-(* After a successful borrow: the new borrow [c] and the previous (synced) borrow [old], each
-   valued separately, are together within the limit.  ValidateBorrow does not value their sum,
-   which is what the liquidation routine does — see the refutation below. *)
-Theorem C08_borrow_gate_partial :
+(* After any successful borrow the same holds: ValidateBorrow now also requires
+   IsWithinValidLtvRange(deposit, existing + new borrow). *)
+Theorem C08_borrow_gate :
+  forall e s u c s', borrow e s u c = Ok s' tt ->
+  within_ltv e s' (amt_of (dep s' u)) (amt_of (bor s' u)) = Some true.
+Proof. exact borrow_gate. Qed.
+Print Assumptions C08_borrow_gate.
+
+(* (it still implies the older, weaker check: new and previous borrow valued separately) *)
+Theorem C08_borrow_gate_split_valuation :
   forall e s u c s', borrow e s u c = Ok s' tt ->
   exists old,
     ceq (nd e) (amt_of (bor s' u)) (cadd old c) /\
     all_priced e s' (amt_of (dep s' u)) = true /\ all_priced e s' old = true /\ all_priced e s' c = true /\
     value_of e s' old + value_of e s' c <= borrowable_of e s' (amt_of (dep s' u)).
 Proof. exact borrow_gate_partial. Qed.
-Print Assumptions C08_borrow_gate_partial.
-
+Print Assumptions C08_borrow_gate_split_valuation.
 (* concrete witnesses: minimised histories found by the driver's monitors on the real keepers *)
 Definition wa_env : env := mk_env 5 4 [Some (mkMarket 100000000 800000000000000000 false 0 25000000000000000 10000000000000000 50000000000000000 2000000000000000000 800000000000000000 500000000000000000); Some (mkMarket 100000000 600000000000000000 false 0 25000000000000000 0 50000000000000000 100000000000000000 800000000000000000 5000000000000000000); Some (mkMarket 1000000 600000000000000000 false 0 500000000000000000 50000000000000000 800000000000000000 2000000000000000000 800000000000000000 10000000000000000000); Some (mkMarket 1000000000000000000 750000000000000000 false 0 50000000000000000 0 500000000000000000 1000000000000000000 800000000000000000 5000000000000000000); None] 10000000000000000000.
 Definition wa_init : state := mk_state [[100000000000000000; 100000000000000000; 1000000000000000; 1000000000000000000000000000; 1000000000000000]; [100000000000000000; 100000000000000000; 1000000000000000; 1000000000000000000000000000; 1000000000000000]; [100000000000000000; 100000000000000000; 1000000000000000; 1000000000000000000000000000; 1000000000000000]; [4000000000; 4000000000; 40000000; 40000000000000000000; 40000000]; [0;0;0;0;0]; [0;0;0;0;0]] [1083581890000704538815; 1712000000391949144; 333333333333333333; 1746000000000245087390; 0] [Some 1704067200; Some 1704067200; Some 1704067200; Some 1704067200; None].
@@ -46,33 +53,12 @@ Definition wb_prefix : list op := [Deposit 0%nat [(3%nat, 2222222222222222222222
   Borrow 1%nat [(3%nat, 55107954330133333330)]].
 Definition wb_last : op := Borrow 1%nat [(3%nat, 55107954330133333338)].
 
-(* The full statement is false: a borrow that ValidateBorrow accepts can leave the position
-   outside the range the liquidation routine accepts (one ulp of 10^-18 USD; an 18-decimal asset
-   priced at 0.45 USD, borrowed in two steps at the boundary). *)
-Theorem C08_borrow_gate_refuted :
-  exists e s u c s', borrow e s u c = Ok s' tt /\
-    within_ltv e s' (amt_of (dep s' u)) (amt_of (bor s' u)) = Some false.
-Proof.
-  exists wb_env, (run wb_env wb_init wb_prefix), 1%nat, (of_list [(3%nat, 55107954330133333338)]).
-  apply (res_ok_elim (borrow wb_env (run wb_env wb_init wb_prefix) 1%nat (of_list [(3%nat, 55107954330133333338)]))
-           (fun s' => within_ltv wb_env s' (amt_of (dep s' 1%nat)) (amt_of (bor s' 1%nat)) = Some false)).
-  vm_compute. reflexivity.
-Qed.
-Print Assumptions C08_borrow_gate_refuted.
 
-(* ... and the same position can then be liquidated by a third party at once. *)
-Theorem C08_accepted_borrow_liquidatable :
-  exists e s o s' s'', step e s o = Ok s' tt /\ (exists u c, o = Borrow u c) /\
-    step e s' (Liquidate 2%nat 1%nat) = Ok s'' tt.
-Proof.
-  exists wb_env, (run wb_env wb_init wb_prefix), wb_last.
-  destruct (res_ok_elim (step wb_env (run wb_env wb_init wb_prefix) wb_last)
-             (fun s' => match step wb_env s' (Liquidate 2%nat 1%nat) with Ok _ _ => True | _ => False end))
-    as (s' & E & P); [vm_compute; exact I|].
-  exists s'. destruct (step wb_env s' (Liquidate 2%nat 1%nat)) as [s'' []| |]; try contradiction.
-  exists s''. split; [exact E|]. split; [unfold wb_last; eauto|reflexivity].
-Qed.
-Print Assumptions C08_accepted_borrow_liquidatable.
+(* regression: the two-step borrow of an 18-decimal asset at the boundary, which the earlier
+   ValidateBorrow accepted and which was then liquidatable, is refused *)
+Example C08_split_valuation_borrow_refused :
+  step wb_env (run wb_env wb_init wb_prefix) wb_last = Err.
+Proof. vm_compute. reflexivity. Qed.
 
 (** * liquidation only of unsafe positions *)
 
@@ -117,7 +103,7 @@ Proof.
   intros e s s'. split; [|split].
   - intros u c H v Hv. apply withdraw_spec in H. destruct H as (s2 & r & _ & _ & H). cbn zeta in H.
     destruct H as (_ & _ & _ & _ & H1 & H2 & _). split; [apply H1|apply H2]; assumption.
-  - intros u c H v Hv. apply borrow_spec in H. destruct H as (s2 & dp & _ & _ & _ & _ & _ & _ & _ & _ & H & _). apply H, Hv.
+  - intros u c H v Hv. apply borrow_spec in H. destruct H as (s2 & dp & _ & _ & _ & _ & _ & _ & _ & _ & _ & H & _). apply H, Hv.
   - intros a o c H v Hv. apply repay_spec in H. destruct H as (s2 & r & _ & _ & H). cbn zeta in H.
     destruct H as (_ & _ & _ & _ & H1 & H2). rewrite H1. split; [reflexivity|apply H2, Hv].
 Qed.
@@ -136,39 +122,30 @@ Theorem C08_interest_monotone_borrow :
 Proof. exact interest_monotone_borrow. Qed.
 Print Assumptions C08_interest_monotone_borrow.
 
-(* The same for deposits, under the guard "reserves <= cash + borrows in every denom". *)
-Theorem C08_interest_monotone_supply_partial :
+(* The same for deposits, without any guard on reserves: the supply factor of an accrual is
+   never below one. *)
+Theorem C08_interest_monotone_supply :
   forall e s t fs s' u r c,
-  begin_block e s t fs = Ok s' tt -> env_wf e ->
-  fac_nonneg (sfac s) -> reserves_covered e s ->
+  begin_block e s t fs = Ok s' tt ->
+  fac_nonneg (sfac s) ->
   dep s u = Some r -> (forall d, 0 <= amt r d) -> idx_sound (sfac s) r ->
   synced_deposit e s u = Some (Ok c tt) ->
   exists c', synced_deposit e s' u = Some (Ok c' tt) /\ forall d, c d <= c' d.
 Proof. exact interest_monotone_supply. Qed.
-Print Assumptions C08_interest_monotone_supply_partial.
+Print Assumptions C08_interest_monotone_supply.
 
-(* Without the guard the statement is false: after a liquidation that strands bad debt the
-   reserves exceed cash + borrows, CalculateSupplyInterestFactor returns a factor below one
-   and an untouched deposit's claimable amount shrinks at the next block. *)
-Theorem C08_interest_monotone_supply_refuted :
-  exists e s t fs s' u c c' d,
-    begin_block e s t fs = Ok s' tt /\ (forall d, (d < 4)%nat -> PREC <= nthZ fs d) /\
-    synced_deposit e s u = Some (Ok c tt) /\ synced_deposit e s' u = Some (Ok c' tt) /\
-    c' d < c d.
-Proof.
-  pose (s := run wa_env wa_init wa_prefix).
-  pose (fs := [1000000000000000000; 1000000000000000000; 1004630961015383585; 1000000000000000000]).
-  destruct (res_ok_elim (begin_block wa_env s 1752796800 fs)
-             (fun s' => match synced_deposit wa_env s 0%nat, synced_deposit wa_env s' 0%nat with
-                        | Some (Ok c _), Some (Ok c' _) => c' 2%nat < c 2%nat
-                        | _, _ => False end)) as (s' & E & P); [vm_compute; reflexivity|].
-  destruct (synced_deposit wa_env s 0%nat) as [[c []| |]|] eqn:E1; try contradiction.
-  destruct (synced_deposit wa_env s' 0%nat) as [[c' []| |]|] eqn:E2; try contradiction.
-  exists wa_env, s, 1752796800, fs, s', 0%nat, c, c', 2%nat.
-  repeat split; try assumption.
-  intros d Hd. destruct d as [|[|[|[|d]]]]; [vm_compute; discriminate..|lia].
-Qed.
-Print Assumptions C08_interest_monotone_supply_refuted.
+(* regression: after the liquidation that strands bad debt (reserves > cash + borrows) the
+   untouched deposit no longer shrinks at the next block *)
+Example C08_bad_debt_deposit_does_not_shrink :
+  match step wa_env (run wa_env wa_init wa_prefix) wa_block with
+  | Ok s' _ =>
+      match synced_deposit wa_env (run wa_env wa_init wa_prefix) 0%nat, synced_deposit wa_env s' 0%nat with
+      | Some (Ok c _), Some (Ok c' _) => c 2%nat <= c' 2%nat /\ tbor s' 2%nat + bal s' (hacc wa_env) 2%nat < tres s' 2%nat
+      | _, _ => False
+      end
+  | _ => False
+  end.
+Proof. vm_compute. split; [discriminate|reflexivity]. Qed.
 
 (** * caps on withdrawals and repayments *)
 Theorem C08_withdraw_capped :
